@@ -5,6 +5,7 @@ ingested through three batchings (history family); (f) root-level shapes (contex
 Obs: per-op status, to_stream() returns, syn parses a File, `cargo check` of the module with error attribution.
 Oracle: ingest Ok => no panic, parses, zero rustc errors; and (every member is inside the supported fragment) ingest Ok."""
 import copy
+import json
 
 from .. import wire
 from ..common import MachineryError
@@ -73,6 +74,8 @@ def history_variants(p):
         q["id"] = p["id"] + "~refs+type"
         q["ops"] = [{"refs": defs}, {"type": {"$ref": "#/definitions/" + names[0]}, "hint": None}]
         out.append(q)
+        if "$ref" in json.dumps(defs[names[0]]):
+            return out   # add_type_with_name alone cannot resolve a reference to the definition itself (documented precondition)
         q = dict(p)
         q["id"] = p["id"] + "~type_with_name"
         q["ops"] = [{"type": defs[names[0]], "hint": names[0]}]
